@@ -3,6 +3,8 @@
 //   ops: P,<hexpattern>,<payload> (push)  E (emplace)  F (emplace_keyfirst)  H (get_bucket_key + push_to_bucket)
 //        G (get_bucket + emplace_in_bucket)  T (top)  O (pop)  W (swap_top_bucket)  K (peak_top_key)  C (clear)
 //        Y / Z (copy / move construction+assignment round trip; no output token)
+//        X as first token: RadixHeap<Item, ItemKey, KeyType, Radix> built with make_radix_heap instead of RadixHeapPair
+//        (only for "32 0 3" and "16 1 2"); every case also checks BucketComputation::lower_bound/upper_bound
 // Keys travel as the w-bit two's-complement pattern in hex.  One output token per op (format of ocaml/C13_driver.ml);
 // " PROPFAIL@<op>:<why>" is appended when the answers violate the property against a reference multiset.
 #include <cstdint>
@@ -16,6 +18,11 @@
 #include <vector>
 
 #include <tlx/container/radix_heap.hpp>
+
+// compiled in two parts (checks/C13.py builds them in parallel): C13_PART 1 = 8/16-bit keys, 2 = 32/64-bit keys
+#ifndef C13_PART
+#define C13_PART 0
+#endif
 
 struct Op { char name; uint64_t key; unsigned payload; };
 
@@ -33,11 +40,36 @@ static std::vector<Op> parse_ops(std::istringstream& in) {
     return ops;
 }
 
-template <typename KT, unsigned Radix>
-static void run_radix(const std::vector<Op>& ops, std::ostringstream& out) {
+// a value type that is not a pair, with its own key extractor (RadixHeap proper, built through make_radix_heap)
+template <typename KT>
+struct Item {
+    KT key; uint32_t payload;
+    Item() : key(0), payload(0) {}
+    Item(KT k, uint32_t p) : key(k), payload(p) {}
+};
+template <typename KT>
+struct ItemKey { KT operator()(const Item<KT>& i) const { return i.key; } };
+template <typename KT> static KT key_of(const std::pair<KT, uint32_t>& v) { return v.first; }
+template <typename KT> static uint32_t pay_of(const std::pair<KT, uint32_t>& v) { return v.second; }
+template <typename KT> static KT key_of(const Item<KT>& v) { return v.key; }
+template <typename KT> static uint32_t pay_of(const Item<KT>& v) { return v.payload; }
+
+// BucketComputation::lower_bound / upper_bound (public, unused by the heap itself) must agree with operator()
+template <typename UT, unsigned Radix>
+static bool bounds_consistent() {
+    tlx::radix_heap_detail::BucketComputation<Radix, UT> bc;
+    for (size_t i = 0; i < bc.num_buckets; ++i) {
+        UT lo = bc.lower_bound(i), hi = bc.upper_bound(i);
+        if (lo > hi || bc(lo, 0) != i || bc(hi, 0) != i) return false;
+        if (i && bc(static_cast<UT>(lo - 1), 0) != i - 1) return false;
+    }
+    return true;
+}
+
+template <typename H, typename KT, unsigned Radix>
+static void run_radix_on(H h, const std::vector<Op>& ops, std::ostringstream& out) {
     using UT = typename std::make_unsigned<KT>::type;
-    using H = tlx::RadixHeapPair<KT, uint32_t, Radix>;
-    H h;
+    using V = typename H::value_type;
     std::multiset<KT> ref;
     std::string fail;
     bool have_last = false, first = true; KT last = 0;
@@ -46,15 +78,16 @@ static void run_radix(const std::vector<Op>& ops, std::ostringstream& out) {
         const Op& o = ops[i];
         std::string f;
         const H& ch = h;                        // size/empty/peak_top_key/get_bucket* through the const interface
-        if (o.name == 'Y') { H c(h); H e2; e2 = c; h = e2; continue; }                                  // copy round trip
-        if (o.name == 'Z') { H m(std::move(h)); H e2; e2 = std::move(m); h = std::move(e2); continue; } // move round trip
+        if (o.name == 'X') continue;                                                                       // header flag
+        if (o.name == 'Y') { H c(h); H e2(c); e2 = c; h = e2; continue; }                                  // copy ctor + assignment
+        if (o.name == 'Z') { H m(std::move(h)); H e2(m); e2 = std::move(m); h = std::move(e2); continue; } // move ctor + assignment
         if (!first) out << ' ';
         first = false;
         switch (o.name) {
         case 'P': case 'E': case 'F': case 'H': case 'G': {
             KT k = static_cast<KT>(static_cast<UT>(o.key));
             if (have_last && k < last) { out << "INVALID-HISTORY"; return; }
-            std::pair<KT, uint32_t> val(k, o.payload);
+            V val(k, o.payload);
             size_t idx;
             switch (o.name) {
             case 'P': idx = h.push(val); break;                                   // push(const value_type&)
@@ -71,8 +104,8 @@ static void run_radix(const std::vector<Op>& ops, std::ostringstream& out) {
         case 'T': {
             if (ref.empty()) { out << "INVALID-HISTORY"; return; }
             auto v = h.top();
-            out << 't' << std::hex << pat(v.first) << std::dec << '.' << v.second;
-            if (v.first != *ref.begin()) f = "top-not-min";
+            out << 't' << std::hex << pat(key_of<KT>(v)) << std::dec << '.' << pay_of<KT>(v);
+            if (key_of<KT>(v) != *ref.begin()) f = "top-not-min";
             have_last = true; last = *ref.begin();
             break;
         }
@@ -85,15 +118,15 @@ static void run_radix(const std::vector<Op>& ops, std::ostringstream& out) {
         }
         case 'W': {
             if (ref.empty()) { out << "INVALID-HISTORY"; return; }
-            std::vector<std::pair<KT, uint32_t>> b;
+            typename H::bucket_data_type b;
             h.swap_top_bucket(b);
             KT m = *ref.begin(); size_t cnt = ref.count(m);
             have_last = true; last = m;
             out << 'w';
             for (size_t j = 0; j < b.size(); ++j) {
                 if (j) out << ',';
-                out << std::hex << pat(b[j].first) << std::dec << '.' << b[j].second;
-                if (b[j].first != m) f = "swap-bucket-not-min";
+                out << std::hex << pat(key_of<KT>(b[j])) << std::dec << '.' << pay_of<KT>(b[j]);
+                if (key_of<KT>(b[j]) != m) f = "swap-bucket-not-min";
             }
             if (b.size() != cnt) f = "swap-bucket-count";
             ref.erase(m);
@@ -113,7 +146,19 @@ static void run_radix(const std::vector<Op>& ops, std::ostringstream& out) {
         if (f.empty() && (ch.size() != ref.size() || ch.empty() != ref.empty())) f = "size";
         if (fail.empty() && !f.empty()) fail = std::to_string(i) + ":" + f;
     }
+    if (fail.empty() && !bounds_consistent<UT, Radix>()) fail = "0:lower_bound/upper_bound";
     if (!fail.empty()) out << " PROPFAIL@" << fail;
+}
+
+template <typename KT, unsigned Radix>
+static void run_radix(const std::vector<Op>& ops, std::ostringstream& out) {
+    run_radix_on<tlx::RadixHeapPair<KT, uint32_t, Radix>, KT, Radix>(tlx::RadixHeapPair<KT, uint32_t, Radix>(), ops, out);
+}
+// RadixHeap<Item, ItemKey, KT, Radix> obtained from make_radix_heap (leading op token X)
+template <typename KT, unsigned Radix>
+static void run_radix_item(const std::vector<Op>& ops, std::ostringstream& out) {
+    auto h = tlx::make_radix_heap<Item<KT>, Radix>(ItemKey<KT>());
+    run_radix_on<decltype(h), KT, Radix>(h, ops, out);
 }
 
 template <typename KT>
@@ -123,12 +168,43 @@ static void by_radix(unsigned rb, const std::vector<Op>& ops, std::ostringstream
     case 2: run_radix<KT, 4>(ops, out); break;
     case 3: run_radix<KT, 8>(ops, out); break;
     case 4: run_radix<KT, 16>(ops, out); break;
-#ifdef C13_RADIX32
     case 5: run_radix<KT, 32>(ops, out); break;
-#endif
     case 6: run_radix<KT, 64>(ops, out); break;
     default: out << "?radix";
     }
+}
+
+// filled_ is a radix_heap_detail::BitArray; the Coq model replaces it by its specification (a set of indices with
+// find_lsb = least member).  "bitarray <seed>" cases run the real tree of every depth against std::set.
+template <size_t Size>
+static bool bitarray_vs_set(uint64_t seed, std::string& why) {
+    tlx::radix_heap_detail::BitArray<Size> b; std::set<size_t> r;
+    uint64_t x = seed * 0x9E3779B97F4A7C15ull + Size;
+    auto next = [&]() { x ^= x << 13; x ^= x >> 7; x ^= x << 17; return x; };
+    for (int step = 0; step < 3000; ++step) {
+        size_t i = next() % Size;
+        if (step % 5 == 4) i = (next() % 3 == 0) ? Size - 1 : (next() % 2 ? 0 : i / 64 * 64);   // word / subtree borders
+        switch (next() % 8) {
+        case 0: case 1: case 2: b.set_bit(i); r.insert(i); break;
+        case 3: case 4: b.clear_bit(i); r.erase(i); break;
+        case 5: if (next() % 40 == 0) { b.clear_all(); r.clear(); } break;
+        default: break;
+        }
+        const auto& cb = b;
+        if (cb.is_set(i) != (r.count(i) != 0)) { why = "is_set"; return false; }
+        if (cb.empty() != r.empty()) { why = "empty"; return false; }
+        if (!r.empty() && cb.find_lsb() != *r.begin()) { why = "find_lsb"; return false; }
+        if (step % 64 == 63) { tlx::radix_heap_detail::BitArray<Size> c(b); b = c; }        // copy round trip
+    }
+    return true;
+}
+static std::string bitarray_case(uint64_t seed) {
+    std::string why;
+#define C13_BA(S) if (!bitarray_vs_set<S>(seed, why)) return "PROPFAIL@bitarray<" #S ">:" + why;
+    C13_BA(1) C13_BA(9) C13_BA(32) C13_BA(33) C13_BA(64) C13_BA(65) C13_BA(67) C13_BA(142) C13_BA(646)
+    C13_BA(4096) C13_BA(4097) C13_BA(70000)
+#undef C13_BA
+    return "ok";
 }
 
 int main(int argc, char** argv) {
@@ -138,19 +214,35 @@ int main(int argc, char** argv) {
     while (std::getline(in, line)) {
         if (line.empty()) continue;
         std::istringstream ls(line);
-        std::string kind; unsigned w, rb; int sg;
-        ls >> kind >> w >> sg >> rb;
+        std::string kind; unsigned w = 0, rb = 0; int sg = 0;
+        ls >> kind;
+        if (kind == "bitarray") {
+#if C13_PART != 2
+            uint64_t seed = 0; ls >> seed; std::cout << bitarray_case(seed) << std::endl;
+#else
+            std::cout << "?part" << std::endl;
+#endif
+            continue;
+        }
+        ls >> w >> sg >> rb;
         std::ostringstream out;
         auto ops = parse_ops(ls);
+        bool item = !ops.empty() && ops[0].name == 'X';
         if (kind != "radix") out << "?";
+#if C13_PART != 2
+        else if (item && w == 16) run_radix_item<int16_t, 4>(ops, out);
         else if (w == 8 && !sg) by_radix<uint8_t>(rb, ops, out);
         else if (w == 8 && sg) by_radix<int8_t>(rb, ops, out);
         else if (w == 16 && !sg) by_radix<uint16_t>(rb, ops, out);
         else if (w == 16 && sg) by_radix<int16_t>(rb, ops, out);
+#endif
+#if C13_PART != 1
+        else if (item && w == 32) run_radix_item<uint32_t, 8>(ops, out);
         else if (w == 32 && !sg) by_radix<uint32_t>(rb, ops, out);
         else if (w == 32 && sg) by_radix<int32_t>(rb, ops, out);
         else if (w == 64 && !sg) by_radix<uint64_t>(rb, ops, out);
         else if (w == 64 && sg) by_radix<int64_t>(rb, ops, out);
+#endif
         else out << "?width";
         std::cout << out.str() << std::endl;
     }
